@@ -15,7 +15,8 @@ def finish(prop, tier, seed, mod, joblist, results, lemmas, wall, verbose=False)
     tot = {k: 0 for k in ("paths", "decisions", "merges", "queries", "obligations", "discharged", "witnesses_validated",
                           "witnesses_skipped")}
     solver_time = 0.0
-    probes = {"offgrid_probes": 0, "fallback_probes": 0, "cegar_discharged": 0}
+    probes = {"offgrid_probes": 0, "fallback_probes": 0, "cegar_discharged": 0, "cvc5_queries": 0, "cvc5_unsat": 0, "cvc5_unknown": 0,
+              "cvc5_sat": 0}
     files = {}
     samples = []
     jobsum = []
@@ -92,6 +93,9 @@ def finish(prop, tier, seed, mod, joblist, results, lemmas, wall, verbose=False)
             "witnesses_skipped_offgrid": tot["witnesses_skipped"],
             "real_code_probes_off_the_grid": probes["offgrid_probes"], "real_code_fallback_probes": probes["fallback_probes"],
             "obligations_discharged_only_on_the_position_menu_or_margin": probes["cegar_discharged"],
+            "second_solver": {"solver": "cvc5 1.4 (python wheel)", "obligations_rechecked": probes["cvc5_queries"],
+                              "agree_unsat": probes["cvc5_unsat"], "timeout_or_unknown": probes["cvc5_unknown"],
+                              "disagree": probes["cvc5_sat"], "note": "thorough tier only: up to 40 discharged obligations per job"},
             "inconclusive": inconc, "model_mismatches": mism[:20],
             "known_findings": known_ev,
             "exhaustive": False,
